@@ -109,6 +109,8 @@ class Engine:
         self.ev = Evaluator(self)
         self.funcs = {}
         self.axioms = []
+        self.classes = {}   # record type name -> 'module:Class'
+        self.ctors = {}     # constructor name in code -> record type name
         self.obls = []
         self.prune = prune
         self._solver = z3.Solver()
@@ -203,9 +205,18 @@ class Engine:
         if isinstance(base.ty, TRec):
             if attr in base.ty.fields:
                 return V(base.ty.fields[attr], base.ty.get(attr, base.t))
+            q = self.method_qual(base.ty, attr)
+            if q and self.contracts[q].d.get('property'):
+                return self.call_bound(q, [('self', base)], [], {}, ctx, getattr(node, 'lineno', 0))
             ctx.exc('AttributeError', z3.BoolVal(True))
             return V(INT, fresh('junk', z3.IntSort()))
-        raise OutOfSubset(f'attribute .{attr} on {base.ty}')
+        raise OutOfSubset(f'attribute .{attr} on {base.ty} (line {getattr(node, "lineno", "?")})')
+
+    def method_qual(self, rty, name):
+        cq = self.classes.get(rty.name)
+        if cq and f'{cq}.{name}' in self.contracts:
+            return f'{cq}.{name}'
+        return None
 
     # ------------------------------------------------------------------ library functions
     def set_of_list(self, lst, ctx):
@@ -261,6 +272,11 @@ class Engine:
                 r = self.spec_call(name, n, ctx, ev)
                 if r is not None:
                     return r
+            if name == 'deepcopy':
+                self.libs_used.add('LC-DEEPCOPY: deepcopy/copy return an equal value (value semantics; freshness is C08\'s frame claim)')
+                return ev.ev(n.args[0], ctx)
+            if name in self.ctors:
+                return self.construct(self.ctors[name], n, ctx, ev)
             b = getattr(self, 'bi_' + name, None)
             if b is not None:
                 return b(n, ctx, ev)
@@ -269,7 +285,23 @@ class Engine:
                 return self.call_contract(q, n, ctx, ev)
             raise OutOfSubset(f'call to {name} (line {getattr(n, "lineno", "?")})')
         if isinstance(f, ast.Attribute):
+            if ast.unparse(f) in ('copy.deepcopy', 'copy.copy'):
+                self.libs_used.add('LC-DEEPCOPY: deepcopy/copy return an equal value (value semantics; freshness is C08\'s frame claim)')
+                return ev.ev(n.args[0], ctx)
             recv = ev.ev(f.value, ctx)
+            rr = recv
+            if isinstance(rr.ty, TOpt) and isinstance(rr.ty.inner, (TRec, TDict)):
+                rr = ev.unwrap_opt(rr, ctx, 'AttributeError')
+            if isinstance(rr.ty, TRec):
+                if f.attr in ('copy',) and not n.args:
+                    self.libs_used.add('LC-DEEPCOPY: deepcopy/copy return an equal value (value semantics; freshness is C08\'s frame claim)')
+                    return rr
+                q = self.method_qual(rr.ty, f.attr)
+                if q:
+                    pos, kw = self.args_of(n, ctx, ev)
+                    return self.call_bound(q, [('self', rr)], pos, kw, ctx, getattr(n, 'lineno', 0))
+                raise OutOfSubset(f'method .{f.attr} of {rr.ty} has no contract (line {getattr(n, "lineno", "?")})')
+            recv = rr
             m = getattr(self, 'meth_' + f.attr, None)
             if m is not None:
                 return m(recv, n, ctx, ev)
@@ -288,12 +320,33 @@ class Engine:
             raise OutOfSubset('*args/**kwargs')
         return [ev.ev(a, ctx) for a in n.args], {k.arg: ev.ev(k.value, ctx) for k in n.keywords}
 
-    def call_contract(self, q, n, ctx, ev):
-        c = self.contracts[q]
+    def construct(self, rname, n, ctx, ev):
+        rty = RECORDS[rname]
         pos, kw = self.args_of(n, ctx, ev)
+        vals = {}
+        for (f, _), v in zip(rty.fields.items(), pos):
+            vals[f] = v
+        vals.update(kw)
+        terms = []
+        for f, fty in rty.fields.items():
+            if f in vals:
+                terms.append(coerce(vals[f], fty).t)
+            elif isinstance(fty, TOpt):
+                terms.append(fty.none())     # dataclass default None
+            else:
+                raise OutOfSubset(f'constructor {rname}: field {f} not given')
+        return V(rty, rty.mk(*terms))
+
+    def call_contract(self, q, n, ctx, ev):
+        pos, kw = self.args_of(n, ctx, ev)
+        return self.call_bound(q, [], pos, kw, ctx, getattr(n, 'lineno', 0))
+
+    def call_bound(self, q, pre, pos, kw, ctx, line):
+        c = self.contracts[q]
         names = list(c.params)
-        binding = {}
-        for nm, v in zip(names, pos):
+        binding = dict(pre)
+        free = [nm for nm in names if nm not in binding]
+        for nm, v in zip(free, pos):
             binding[nm] = v
         for k, v in kw.items():
             if k not in c.params:
@@ -324,7 +377,6 @@ class Engine:
             gv, a = self.spec_eval(text, env, ghosts=ghosts)
             ghosts[g] = gv
             assumes += a
-        line = getattr(n, 'lineno', 0)
         if not ctx.spec:
             for lab, text in _labelled(c.requires):
                 g, a = self.spec_bool(text, env, ghosts=ghosts)
@@ -457,6 +509,8 @@ class Engine:
             return V(INT, list_len(v))
         if isinstance(v.ty, TTuple):
             return mk_int(len(v.ty.elems))
+        if isinstance(v.ty, TDict):
+            return self.dict_len(v, ctx)
         raise OutOfSubset(f'len of {v.ty}')
 
     def _minmax(self, n, ctx, ev, is_min):
@@ -487,6 +541,27 @@ class Engine:
 
     def bi_max(self, n, ctx, ev):
         return self._minmax(n, ctx, ev, False)
+
+    def bi_any(self, n, ctx, ev):
+        a = n.args[0]
+        if isinstance(a, (ast.List, ast.Tuple)):
+            vals = [truthy(ev.ev(e, ctx)) for e in a.elts]
+            return V(BOOL, z3.Or(*vals) if vals else z3.BoolVal(False))
+        raise OutOfSubset('any() of a non-literal')
+
+    def bi_all(self, n, ctx, ev):
+        a = n.args[0]
+        if isinstance(a, (ast.List, ast.Tuple)):
+            vals = [truthy(ev.ev(e, ctx)) for e in a.elts]
+            return V(BOOL, z3.And(*vals) if vals else z3.BoolVal(True))
+        raise OutOfSubset('all() of a non-literal')
+
+    def dict_len(self, d, ctx):
+        f = z3.Function('dlen_' + d.ty.name.replace('[', '_').replace(']', '_').replace(',', '_'), d.ty.sort(), z3.IntSort())
+        k = fresh('k', d.ty.k.sort())
+        ctx.assume(f(d.t) >= 0)
+        ctx.assume((f(d.t) == 0) == z3.ForAll([k], z3.Not(z3.Select(d.ty.has(d.t), k))))
+        return V(INT, f(d.t))
 
     def bi_abs(self, n, ctx, ev):
         v = ev.unwrap_opt(ev.ev(n.args[0], ctx), ctx)
